@@ -130,7 +130,7 @@ def build(classes, shape, inst, loop, futs):
         elif kind == 'savable':
             value = build(classes, shape, spec[1], loop, futs)
         elif kind == 'future':
-            value = persistence.SavableFuture(loop=loop)
+            value = (gen_classes.PvFuture if len(spec) > 2 and spec[2] else persistence.SavableFuture)(loop=loop)
             state = spec[1]
             if state == 'cancelled':
                 value.cancel()
@@ -138,6 +138,8 @@ def build(classes, shape, inst, loop, futs):
                 value.set_result(copy.deepcopy(state[1]))
             elif isinstance(state, list) and state[0] == 'exception':
                 value.set_exception(ValueError(state[1]))
+            elif isinstance(state, list) and state[0] == 'falsy-exception':
+                value.set_exception(gen_classes.QuietError(state[1]))
             futs.append(value)
         else:
             raise ValueError(spec)
@@ -198,6 +200,18 @@ def enumerate_cases(tier, scope):
                 yield {'shape': manual, 'instance': {'cls': 'C1', 'members': members}, 'loader': loader, 'load_with': load_with, 'ctx_extend': True}
                 yield {'shape': manual, 'instance': {'cls': 'C1', 'members': members}, 'loader': loader, 'load_with': load_with, 'redefine': True, 'strict': True}
     yield {'shape': shape, 'instance': {'cls': 'C2', 'members': {'m0': ['val', 1], 'm1': ['val', 2], 'm2': ['val', 3]}}, 'loader': 'default', 'load_with': 'none', 'tamper': 'pv.gen_classes:DoesNotExist'}
+    # an identifier that a dict-backed loader does not know (its lookup fails with KeyError): refused with ValueError too
+    for loader, load_with in (('persave', 'ctx'), ('persave', 'none'), ('global', 'none')):
+        yield {'shape': shape, 'instance': {'cls': 'C2', 'members': {'m0': ['val', 1], 'm1': ['val', 2], 'm2': ['val', 3]}}, 'loader': loader, 'load_with': load_with, 'registry_loader': True, 'tamper': 'reg!not-registered'}
+    # futures of an application-defined SavableFuture subclass keep their class in every state; a future that failed with
+    # an exception that is falsy (an exception class with __len__) failed all the same
+    for fut in ('pending', ['result', 5], ['exception', 'boom'], 'cancelled', ['falsy-exception', 'quiet']):
+        for sub in (True, False):
+            if fut[0] != 'falsy-exception' and not sub:
+                continue
+            members = {'m0': ['future', fut, sub], 'm1': ['val', 1], 'm2': ['savable', {'cls': 'D', 'members': {'m0': ['val', 2], 'm3': ['future', fut, sub]}}]}
+            for loader in ('default', 'persave'):
+                yield {'shape': shape, 'instance': {'cls': 'C2', 'members': members}, 'loader': loader, 'load_with': 'none'}
     # a member that holds a bound method of another object of the same class, of a base class, of a sibling class
     for cls, other in (('C2', 'C2'), ('C2', 'C0'), ('D', 'D'), ('D', 'C0'), ('C1', 'C1')):
         for loader in ('default', 'persave'):
@@ -335,8 +349,12 @@ def compare(orig_spec, shape, classes, new, path, v):
                     want_state = ['cancelled']
                 elif exp[0] == 'result':
                     want_state = ['result', exp[1]]
+                elif exp[0] == 'falsy-exception':
+                    want_state = ['exception', 'QuietError', [repr(exp[1])]]
                 else:
                     want_state = ['exception', 'ValueError', [repr(exp[1])]]
+                if len(spec) > 2 and spec[2] and type(got) is not gen_classes.PvFuture:
+                    v('future-class-lost', f'{path}.{member}: a {fut_state(got)[0]} future of the subclass PvFuture came back as {type(got).__name__}')
                 if st_new != want_state:
                     v('future-state', f'{path}.{member}: restored {st_new}, expected {want_state}')
     for key in orig_spec.get('extra', {}):
@@ -405,7 +423,7 @@ def execute(case):
     # says where the futures live (a context the caller keeps using carries the loop it was made with)
     load_loop = StepLoop()
     prev_global = loaders.get_object_loader()
-    custom = loaders_h.TagLoader()
+    custom = loaders_h.RegistryLoader() if case.get('registry_loader') else loaders_h.TagLoader()  # (the registry one is dict-backed)
     loaders_h.TagLoader.reset()
     loaders_h.OtherLoader.reset()
     try:
